@@ -476,12 +476,21 @@ impl Gen {
           }
           1 => {
             let (a, s) = self.pick_ty(maxseg.max(8));
+            // borrowed or owned handle (the owned one releases through the clone it embeds)
+            let owned = if self.rng.chance(30) { "_owned" } else { "" };
+            if self.rng.chance(12) {
+              // a value with drop glue: the handle keeps it in a slot of its own (another Drop arm)
+              ops.push(format!("alloc_d{owned} {id}"));
+              own.push(id);
+              id += 1;
+              continue;
+            }
             if self.rng.chance(40) {
               // the aligned-bytes entry point (its own bump loop and its own slow-path retry loop)
               let extra = self.rng.pick(&[0u64, 1, 8, 24]);
-              ops.push(format!("alloc_aligned {id} {a} {s} {extra}"));
+              ops.push(format!("alloc_aligned{owned} {id} {a} {s} {extra}"));
             } else {
-              ops.push(format!("alloc_t {id} {a} {s}"));
+              ops.push(format!("alloc_t{owned} {id} {a} {s}"));
             }
             let b = self.byte();
             ops.push(format!("fill {id} {b}"));
